@@ -13,6 +13,14 @@ CLAIMED = {
             "runtime monitor: discrete-log shadow state re-materialised after every API step + algebraic identity table, 20 groups",
             "Runs the real group code on seeded random programs and on the cross product of edge scalars and edge points; every step is judged by re-computing the expected element through a different code path (fresh receivers, explicit base, rotated order) and by two-way algebraic identities. Held = no disagreement on the executions observed.",
             "math/big for scalar shadows; Equal and MarshalBinary of kyber itself are the observation channel (both must agree); only executed operand classes are judged."),
+    "C02": ("exploration",
+            "runtime monitor: math/big reference of Z_q on edge-biased operands for 12 scalar implementations, in the default and the constantTime build; Ed25519 limb arithmetic driven through verif hooks",
+            "Every scalar operation result is decoded and compared with the integer result mod q, canonical form and Equal<=>residue equality are checked on values reached by different routes, SetBytes over lengths 0..96 and Pick via recorded/replayed streams. The same monitor is compiled with -tags constantTime (bigmod back-end).",
+            "math/big; the byte order declared by ByteOrder(); hooks export scMulAdd/scReduce/scAdd/scSub/scMul unchanged."),
+    "C05": ("exploration",
+            "runtime monitor: reference machine executing each API step on fresh unaliased copies (decoded from encoding snapshots), all variables compared after every step; explicit aliasing matrix + random programs, 20 groups",
+            "The live (possibly aliased) objects and the reference snapshots are compared after every step of every program: receiver, return value and every other variable. Clone/Set independence is exercised by mutating either side in place with every mutator.",
+            "encode/decode round trip (C03) to make independent copies; only executed aliasing patterns are judged (all 5 classes for binary ops are enumerated)."),
 }
 
 PENDING = {}
